@@ -27,7 +27,7 @@ theorem mem_setWX_key {l : List WX} {q : ScqId} {w : WId} {g : WX → WX} {x : W
 theorem wake_tree {ex exo} {ts : TState} {w : Worker} (hT : TInvX ex exo X ts)
     (hw : wfind ts.s.workers w.scq w.id = some w) (hp : w.parked = true) :
     TreeOK X (tWake ts w).nodes (bagE (tWake ts w)) (bagI (tWake ts w)) (bagQ (tWake ts w)) (bagP (tWake ts w)) := by
-  have hwt : w.task = none := (hT.inv.core.w1 w.scq w.id w hw hp).1
+  have hwt : w.task = none := hT.inv.core.w1 w.scq w.id w hw hp
   obtain ⟨x0, hx0, hxq, hxi, hxp, hxl⟩ := hT.side.wx_of_worker hw
   have hlast : ∃ p, x0.last = some p := by
     cases hl : x0.last with
